@@ -497,7 +497,7 @@ func init() {
 func TestC10(t *testing.T) {
 	rig.Main(t, "C10", "rapid histories over ROM.BusWriter/BusReader: image of 1-8 banks (+tail; 129-256 banks in 0.1% of the cases, then mostly addressed at banks >= $80), writes from fresh buffers, through io.Copy and from overlapping slices of the image itself, bus address with edge-biased offset, up to 8 ops "+
 		"(writes whose lengths are solved to end 2/1 before, at and 1-3 beyond the window end, writer re-opens, reads with drawn buffer sizes) "+
-		"against a reference window model; the whole image is compared with the model after every call; plus one write/read history in each of the 256 banks of an 8 MiB image; every history ends with the image replaced by one that is a bank longer, whose new bank is written and read.  Non-trivial = offset >= $8000 and at least one "+
+		"against a reference window model; the whole image is compared with the model after every call; plus one write/read history in each of the 256 banks of an 8 MiB image; every history ends with the image replaced by one that is a bank longer, whose new bank is written and read; one writer and one reader are used for 255-520 calls.  Non-trivial = offset >= $8000 and at least one "+
 		"write, or any op at an offset below $8000; distinct = hash(case).",
 		func(r *rig.Run) {
 			ev := r.Ev
@@ -563,6 +563,23 @@ func TestC10(t *testing.T) {
 					}
 					ev.Case(true, rig.Hash64("every-bank", b), func() interface{} { return c })
 					ev.Class("every-bank-of-an-8MiB-image")
+				}
+			}
+			// one writer used for several hundred calls (one byte, nothing, two bytes, ...), one reader for as many
+			if rig.Shard() == 1%rig.Shards() {
+				for k, n := range []int{255, 256, 257, 300, 520} {
+					c := c10Case{Banks: 2, Bank: 1, Off: 0x8100}
+					for i := 0; i < n; i++ {
+						c.Ops = append(c.Ops, c10Op{Kind: "write", N: []int{1, 0, 2, 1}[(i+k)%4], Seed: uint32(i)*40503 + 7})
+					}
+					for i := 0; i < n; i++ {
+						c.Ops = append(c.Ops, c10Op{Kind: "read", N: 1 + i%3})
+					}
+					if !r.CheckSweep("rapid", c, func() error { return c10Check(c) }) {
+						break
+					}
+					ev.Case(true, rig.Hash64("many-calls", n), nil)
+					ev.Class("several-hundred-calls-on-one-writer-and-one-reader")
 				}
 			}
 			ev.Assumption("after a write that reported an error and n stored bytes the writer continues at position+n (successive stored writes stay contiguous)")
